@@ -1,12 +1,39 @@
-//! C02 - not implemented yet
+//! C02 - each party can run the protocol from its own data and the messages it receives.
+//! Three-party exploration of the real compiled graph under E1 (see exec.rs for the execution rules).
+use super::c01::{self, Budget, Which};
 use crate::common::Report;
+use serde_json::Value as J;
 
-pub fn run(_r: &Report) -> i32 {
-    println!("MACHINERY-ERROR property=C02 check not implemented");
-    2
+pub fn run(r: &Report) -> i32 {
+    let thorough = r.tier.thorough();
+    let mut progs = c01::generated_programs(r);
+    if !thorough {
+        // quick: depth-1 programs and the curated families; the planner-relevant depth-2 set is in the thorough tier
+        progs.retain(|p| p.outs.is_none());
+    }
+    progs.extend(super::curated::programs(thorough));
+    r.extra("program_classes", c01::class_histogram(&progs));
+    let b = Budget {
+        max_inputs: if thorough { 4 } else { 2 },
+        extra_seeds: 0,
+        tapes: vec!["prf-zero"],
+        junk: vec!["zeros", "ones", "seeded"],
+        seed_sets: 2,
+    };
+    c01::run_engine(r, Which::ThreeParty, progs, &b);
+    r.finish(
+        "model_checking",
+        "three-party execution of the real compiled graph: every node evaluated by each party's own SimpleEvaluator on that party's values; non-owned inputs and non-held share slots filled from the junk alphabet {zeros, ones, seed-derived bytes}; values cross parties only at Send-annotated nodes; failures are poison. Space: C01 program space (depth 1 + curated; thorough adds planner-relevant depth 2) x owner vectors x 8 output subsets x inline modes x inputs x junk alphabet x 2 assignments of the three parties' seeds (+ PRF-all-zero tape). states = three-party executions, transitions = party steps (node evaluations by one party). Oracle: every output party holds exactly the plaintext result; for a shared output party i holds shares i and i+1, neighbours agree, own shares reconstruct. distinct = distinct compiled contexts",
+        true,
+        &[
+            "execution model = runtime's documented rules (reference/runtime.md): all parties evaluate all nodes, junk for data they do not own, Send(s,r) copies s's value to r",
+            "party schedules are not explored: the compiled graph is a dataflow program, results depend on inputs and tapes only",
+            "conformance of the executor: global walker == Evaluator::evaluate_graph (same seed); three-party walker with full knowledge and equal seeds == global walker at every node",
+        ],
+        &["evaluations", "programs", "states", "transitions", "messages_delivered", "traces_validated_against_impl"],
+    )
 }
 
-pub fn replay(_r: &Report, _rec: &serde_json::Value) -> i32 {
-    println!("MACHINERY-ERROR property=C02 replay not implemented");
-    2
+pub fn replay(r: &Report, rec: &J) -> i32 {
+    c01::replay_case(r, &rec["case"])
 }
